@@ -37,79 +37,116 @@ macro_rules! mk {
 
 const NAMES: [&str; 8] = ["n0", "n1", "n2", "n3", "n4", "n5", "n6", "n7"];
 
+type Job = Box<dyn FnOnce() + Send>;
+
+/// a persistent worker thread (thread 2 of a tree) with the same subscriber installed: jobs run one at a time, in order
+struct Worker { tx: std::sync::mpsc::Sender<Job>, done: std::sync::mpsc::Receiver<()> }
+impl Worker {
+    fn new(dispatch: tracing::Dispatch) -> Worker {
+        let (tx, rx) = std::sync::mpsc::channel::<Job>();
+        let (dtx, drx) = std::sync::mpsc::channel::<()>();
+        std::thread::spawn(move || {
+            tracing::dispatcher::with_default(&dispatch, || {
+                while let Ok(job) = rx.recv() { job(); let _ = dtx.send(()); }
+            });
+        });
+        Worker { tx, done: drx }
+    }
+    fn run(&self, job: Job) { self.tx.send(job).unwrap(); self.done.recv_timeout(std::time::Duration::from_secs(20)).expect("worker"); }
+}
+
+struct World {
+    spans: std::collections::HashMap<u64, Span>,
+    lab: std::collections::HashMap<u64, Vec<(usize, String)>>,      // the rule, computed independently: priority lists (first match wins)
+    stacks: std::collections::HashMap<u64, Vec<u64>>,
+    v: Vec<&'static str>,
+}
+
 fn main() {
-    let plan = load_plan(&std::env::args().nth(1).expect("plan"));
-    let g = |k: &str| *plan.inputs.get(k).unwrap_or_else(|| panic!("input {k}"));
+    let plan = std::sync::Arc::new(load_plan(&std::env::args().nth(1).expect("plan")));
+    let g = { let plan = plan.clone(); move |k: &str| *plan.inputs.get(k).unwrap_or_else(|| panic!("input {k}")) };
     let nops = g("nops") as usize;
     let admit = Admit((0..8).map(|i| plan.inputs.get(&format!("admit_{i}")).copied().unwrap_or(1) == 1).collect());
-    let subscriber = tracing_subscriber::registry().with(MetricsLayer::new());
-    let mut v: Vec<&str> = vec![];
-    tracing::subscriber::with_default(subscriber, || {
-        let rec = DebuggingRecorder::new();
-        let snap = rec.snapshotter();
-        let rec = TracingContextLayer::new(admit.clone()).layer(rec);
-        let mut spans: std::collections::HashMap<u64, Span> = Default::default();
-        // the rule, computed independently: priority lists (first match wins)
-        let mut lab: std::collections::HashMap<u64, Vec<(usize, String)>> = Default::default();
-        let mut stack: Vec<u64> = vec![];
+    let dispatch = tracing::Dispatch::new(tracing_subscriber::registry().with(MetricsLayer::new()));
+    let rec0 = DebuggingRecorder::new();
+    let snap = rec0.snapshotter();
+    let rec = std::sync::Arc::new(TracingContextLayer::new(admit.clone()).layer(rec0));
+    let world = std::sync::Arc::new(std::sync::Mutex::new(World { spans: Default::default(), lab: Default::default(), stacks: Default::default(), v: vec![] }));
+    let worker = Worker::new(dispatch.clone());
+    let mut thread = 1u64;
+    let mut nemit = 0u64;
+    tracing::dispatcher::with_default(&dispatch, || {
         for i in 0..nops {
             let kind = g(&format!("op{i}_kind"));
-            let sid = plan.inputs.get(&format!("op{i}_span")).copied().unwrap_or(0);
-            let name = plan.inputs.get(&format!("op{i}_name")).map(|x| *x as usize);
-            let val = format!("v{}", plan.inputs.get(&format!("op{i}_val")).copied().unwrap_or(0));
-            match kind {
-                0 => {
-                    let pk = g(&format!("op{i}_parent"));       // 0 contextual, 1 explicit root, 2+k explicit parent k
-                    let vs = val.as_str();
-                    let (sp, parent) = if pk == 0 {
-                        (mk!(name, vs, Level::INFO, "s",), stack.last().copied())
-                    } else {
-                        let pid: Option<tracing::Id> = if pk == 1 { None } else { spans[&(pk - 2)].id() };
-                        (mk!(name, vs, parent: pid, Level::INFO, "s",), if pk == 1 { None } else { Some(pk - 2) })
-                    };
-                    let mut l: Vec<(usize, String)> = name.map(|n| vec![(n, val.clone())]).unwrap_or_default();
-                    if let Some(p) = parent { l.extend(lab[&p].iter().cloned()); }
-                    lab.insert(sid, l);
-                    spans.insert(sid, sp);
-                }
-                1 => { spans[&sid].with_subscriber(|(id, d)| d.enter(id)); stack.push(sid); }
-                2 => { let s = stack.pop().unwrap(); spans[&s].with_subscriber(|(id, d)| d.exit(id)); }
-                3 => {
-                    spans[&sid].record(NAMES[name.unwrap()], val.as_str());
-                    lab.get_mut(&sid).unwrap().insert(0, (name.unwrap(), val.clone()));
-                }
-                4 => {
-                    let nl = g(&format!("op{i}_nl")) as usize;
-                    let own: Vec<(usize, String)> = (0..nl).map(|j| (g(&format!("m{j}_name")) as usize, format!("v{}", g(&format!("m{j}_val"))))).collect();
-                    let key = Key::from_parts("m", own.iter().map(|(n, x)| Label::new(NAMES[*n].to_string(), x.clone())).collect::<Vec<_>>());
-                    static META: Metadata<'static> = Metadata::new("t", MLevel::INFO, None);
-                    match g("kind") {
-                        0 => { rec.register_counter(&key, &META).increment(1); }
-                        1 => { rec.register_gauge(&key, &META).set(1.0); }
-                        _ => { rec.register_histogram(&key, &META).record(1.0); }
+            if kind == 5 { thread = g(&format!("op{i}_thread")); continue; }
+            if kind == 4 { nemit += 1; }
+            let (plan, world, rec, snap, admit, th, ne) = (plan.clone(), world.clone(), rec.clone(), snap.clone(), admit.clone(), thread, nemit);
+            let job: Job = Box::new(move || {
+                let g = |k: &str| *plan.inputs.get(k).unwrap_or_else(|| panic!("input {k}"));
+                let mut w = world.lock().unwrap();
+                let sid = plan.inputs.get(&format!("op{i}_span")).copied().unwrap_or(0);
+                let name = plan.inputs.get(&format!("op{i}_name")).map(|x| *x as usize);
+                let val = format!("v{}", plan.inputs.get(&format!("op{i}_val")).copied().unwrap_or(0));
+                match kind {
+                    0 => {
+                        let pk = g(&format!("op{i}_parent"));       // 0 contextual, 1 explicit root, 2+k explicit parent k
+                        let vs = val.as_str();
+                        let (sp, parent) = if pk == 0 {
+                            (mk!(name, vs, Level::INFO, "s",), w.stacks.get(&th).and_then(|s| s.last().copied()))
+                        } else {
+                            let pid: Option<tracing::Id> = if pk == 1 { None } else { w.spans[&(pk - 2)].id() };
+                            (mk!(name, vs, parent: pid, Level::INFO, "s",), if pk == 1 { None } else { Some(pk - 2) })
+                        };
+                        let mut l: Vec<(usize, String)> = name.map(|n| vec![(n, val.clone())]).unwrap_or_default();
+                        if let Some(p) = parent { let pl = w.lab[&p].clone(); l.extend(pl); }
+                        w.lab.insert(sid, l);
+                        w.spans.insert(sid, sp);
                     }
-                    let got: Vec<Vec<(String, String)>> = snap.snapshot().into_vec().into_iter().filter(|e| e.0.key().name() == "m")
-                        .map(|e| e.0.key().labels().map(|l| (l.key().to_string(), l.value().to_string())).collect()).collect();
-                    if got.len() != 1 { println!("entries {:?}", got); v.push("registers_once"); continue; }
-                    let got = &got[0];
-                    let mut want: Vec<(String, String)> = vec![];
-                    for (n, x) in own.iter() { if !want.iter().any(|w| w.0 == NAMES[*n]) { want.push((NAMES[*n].to_string(), x.clone())); } }
-                    if let Some(cur) = stack.last() {
-                        for (n, x) in lab[cur].iter() {
-                            if admit.0[*n] && !want.iter().any(|w| w.0 == NAMES[*n]) { want.push((NAMES[*n].to_string(), x.clone())); }
+                    1 => { w.spans[&sid].with_subscriber(|(id, d)| d.enter(id)); w.stacks.entry(th).or_default().push(sid); }
+                    2 => { let s = w.stacks.entry(th).or_default().pop().unwrap(); w.spans[&s].with_subscriber(|(id, d)| d.exit(id)); }
+                    3 => {
+                        w.spans[&sid].record(NAMES[name.unwrap()], val.as_str());
+                        w.lab.get_mut(&sid).unwrap().insert(0, (name.unwrap(), val.clone()));
+                    }
+                    4 => {
+                        let nl = g(&format!("op{i}_nl")) as usize;
+                        let own: Vec<(usize, String)> = (0..nl).map(|j| (g(&format!("m{j}_name")) as usize, format!("v{}", g(&format!("m{j}_val"))))).collect();
+                        // one metric name per emission, so that each emission's key is read back separately
+                        let mname = format!("m{ne}");
+                        let key = Key::from_parts(mname.clone(), own.iter().map(|(n, x)| Label::new(NAMES[*n].to_string(), x.clone())).collect::<Vec<_>>());
+                        static META: Metadata<'static> = Metadata::new("t", MLevel::INFO, None);
+                        match g("kind") {
+                            0 => { rec.register_counter(&key, &META).increment(1); }
+                            1 => { rec.register_gauge(&key, &META).set(1.0); }
+                            _ => { rec.register_histogram(&key, &META).record(1.0); }
                         }
+                        let got: Vec<Vec<(String, String)>> = snap.snapshot().into_vec().into_iter().filter(|e| e.0.key().name() == mname)
+                            .map(|e| e.0.key().labels().map(|l| (l.key().to_string(), l.value().to_string())).collect()).collect();
+                        if got.len() != 1 { println!("entries {:?}", got); w.v.push("registers_once"); return; }
+                        let got = &got[0];
+                        let mut want: Vec<(String, String)> = vec![];
+                        for (n, x) in own.iter() { if !want.iter().any(|q| q.0 == NAMES[*n]) { want.push((NAMES[*n].to_string(), x.clone())); } }
+                        if let Some(cur) = w.stacks.get(&th).and_then(|s| s.last()) {
+                            for (n, x) in w.lab[cur].iter() {
+                                if admit.0[*n] && !want.iter().any(|q| q.0 == NAMES[*n]) { want.push((NAMES[*n].to_string(), x.clone())); }
+                            }
+                        }
+                        let mut a = got.clone(); a.sort();
+                        let mut b = want.clone(); b.sort();
+                        println!("thread {} emission {}: got {:?} want {:?}", th, ne, a, b);
+                        let dup = (0..a.len()).any(|x| (x + 1..a.len()).any(|y| a[x].0 == a[y].0));
+                        if dup { w.v.push("no_duplicate_names"); }
+                        if a != b { w.v.push("span_tree_labels_follow_the_rule"); }
                     }
-                    let mut a = got.clone(); a.sort();
-                    let mut b = want.clone(); b.sort();
-                    println!("got {:?} want {:?}", a, b);
-                    let dup = (0..a.len()).any(|x| (x + 1..a.len()).any(|y| a[x].0 == a[y].0));
-                    if dup { v.push("no_duplicate_names"); }
-                    if a != b { v.push("span_tree_labels_follow_the_rule"); }
+                    _ => panic!("op kind"),
                 }
-                _ => panic!("op kind"),
-            }
+            });
+            if thread == 1 { job(); } else { worker.run(job); }
         }
-        while let Some(s) = stack.pop() { spans[&s].with_subscriber(|(id, d)| d.exit(id)); }
+        let mut w = world.lock().unwrap();
+        let mine = w.stacks.remove(&1).unwrap_or_default();
+        for s in mine.iter().rev() { w.spans[s].with_subscriber(|(id, d)| d.exit(id)); }
     });
+    let v = world.lock().unwrap().v.clone();
     finish(&v, &plan)
 }
